@@ -266,6 +266,57 @@ fn siblings<A: Backend, B: Backend>(opts: &Opts, rep: &mut Report) {
     }
 }
 
+/// Keys supplied in unusual encodings that the library accepts (the C04/C08 catalogue: non-canonical
+/// Ed25519 y coordinates, x = 0 with the sign bit, small-order points, boundary scalars ...): the id
+/// is the digest of the PASERK text *as supplied* (fixed-size encodings: v2, v3, v4), and sibling
+/// backends that both accept the encoding agree on it.
+fn odd_encodings<B: Backend, P: Prims>(opts: &Opts, rep: &mut Report, collect: &mut Vec<(String, Vec<u8>, [u8; 33])>) {
+    use crate::monitors::c04::{Target, degenerate_keys};
+    if !opts.wants_backend(B::NAME) || B::VER == 1 || (opts.shard != 6 % opts.nshards && opts.only.is_none()) {
+        return;
+    }
+    for (t, label, raw) in degenerate_keys::<B>() {
+        let (kind, keykind, id): (&str, &str, Option<[u8; 33]>) = match t {
+            Target::KeyLocal => ("lid", "local", key_from_bytes::<B, Local>(&raw).ok().map(|k| *k.id().as_bytes())),
+            Target::KeyPublic => ("pid", "public", key_from_bytes::<B, Public>(&raw).ok().map(|k| *k.id().as_bytes())),
+            Target::KeySecret => ("sid", "secret", key_from_bytes::<B, Secret>(&raw).ok().map(|k| *k.id().as_bytes())),
+            Target::KeyPkePublic => ("pid", "public", key_from_bytes::<B, PkePublic>(&raw).ok().map(|k| *k.id().as_bytes())),
+            Target::KeyPkeSecret => ("sid", "secret", key_from_bytes::<B, PkeSecret>(&raw).ok().map(|k| *k.id().as_bytes())),
+            _ => continue,
+        };
+        let Some(id) = id else { continue };
+        let supplied = format!("k{}.{keykind}.{}", B::VER, crate::b64::encode(&raw));
+        let want = r::key_id::<P>(B::VER, kind, &supplied);
+        if id != want {
+            rep.violation(&format!("C13|{}|{kind}|id-is-not-the-digest-of-the-supplied-text", B::NAME), json!({"backend": B::NAME, "encoding_class": label, "supplied": supplied, "library_id": hx(&id), "reference_id": hx(&want)}));
+        }
+        // and through the text parser
+        let via_text = match t {
+            Target::KeyPublic => supplied.parse::<Key<B, Public>>().ok().map(|k| *k.id().as_bytes()),
+            Target::KeySecret => supplied.parse::<Key<B, Secret>>().ok().map(|k| *k.id().as_bytes()),
+            Target::KeyLocal => supplied.parse::<Key<B, Local>>().ok().map(|k| *k.id().as_bytes()),
+            _ => Some(id),
+        };
+        if via_text != Some(id) {
+            rep.violation(&format!("C13|{}|{kind}|unstable-across-text", B::NAME), json!({"supplied": supplied, "encoding_class": label}));
+        }
+        collect.push((format!("{:?}:{label}", t), raw.clone(), id));
+        rep.case(&format!("{}.{kind}.odd-encoding", B::NAME), fnv_parts(&[B::NAME.as_bytes(), kind.as_bytes(), &raw]), true);
+        rep.sample_class(&format!("{}.{kind}.odd-encoding", B::NAME), 2, || json!({"backend": B::NAME, "encoding_class": label, "supplied": supplied, "id": hx(&id)}));
+    }
+}
+
+fn odd_siblings<A: Backend, B: Backend>(rep: &mut Report, a: &[(String, Vec<u8>, [u8; 33])], b: &[(String, Vec<u8>, [u8; 33])]) {
+    for (la, ra, ia) in a {
+        if let Some((_, _, ib)) = b.iter().find(|(lb, rb, _)| lb == la && rb == ra) {
+            if ia != ib {
+                rep.violation(&format!("C13|{}~{}|sibling-ids-differ:odd-encoding", A::NAME, B::NAME), json!({"encoding_class": la, "key_bytes": hx_short(ra), A::NAME: hx(ia), B::NAME: hx(ib)}));
+            }
+            rep.count(&format!("{}~{}.odd-encodings-compared", A::NAME, B::NAME));
+        }
+    }
+}
+
 pub fn run(opts: &Opts) {
     let mut rep = Report::new("C13");
     use crate::prims::Rc;
@@ -280,6 +331,14 @@ pub fn run(opts: &Opts) {
         backend::<V4Na, Rc>(opts, &mut rep);
         siblings::<V3, V3Lc>(opts, &mut rep);
         siblings::<V4, V4Na>(opts, &mut rep);
+        let (mut o2, mut o3, mut o4, mut o3lc, mut o4na) = (vec![], vec![], vec![], vec![], vec![]);
+        odd_encodings::<V2, Ffi>(opts, &mut rep, &mut o2);
+        odd_encodings::<V3, Ffi>(opts, &mut rep, &mut o3);
+        odd_encodings::<V4, Ffi>(opts, &mut rep, &mut o4);
+        odd_encodings::<V3Lc, Rc>(opts, &mut rep, &mut o3lc);
+        odd_encodings::<V4Na, Rc>(opts, &mut rep, &mut o4na);
+        odd_siblings::<V3, V3Lc>(&mut rep, &o3, &o3lc);
+        odd_siblings::<V4, V4Na>(&mut rep, &o4, &o4na);
         crate::monitors::third::ids::<V4>(opts, &mut rep);
         crate::monitors::third::ids::<V4Na>(opts, &mut rep);
     }
@@ -290,7 +349,7 @@ pub fn run(opts: &Opts) {
     }
     rep.set(
         "rule",
-        json!("thousands of generated keys per backend (tens of RSA keys): lid/sid/pid compared with the reference digest (other primitive family) of 'kN.xid.' || canonical PASERK text, checked stable across clone / text / raw round-trips (v1: PEM vs DER), pairwise distinct for related keys (incl. a local key whose bytes equal the public key), text round-trip; id strings of every decoded length 0..70; 10^4 id pairs (equal, last-bit, one-byte, random) for Eq/Ord/Hash against the bytes; sibling backends compared; distinct = distinct keys / strings / pairs"),
+        json!("thousands of generated keys per backend (tens of RSA keys): lid/sid/pid compared with the reference digest (other primitive family) of 'kN.xid.' || canonical PASERK text, checked stable across clone / text / raw round-trips (v1: PEM vs DER), pairwise distinct for related keys (incl. a local key whose bytes equal the public key), text round-trip; id strings of every decoded length 0..70; 10^4 id pairs (equal, last-bit, one-byte, random) for Eq/Ord/Hash against the bytes; sibling backends compared; keys supplied in unusual accepted encodings (non-canonical Ed25519 y, x = 0 with sign bit, small order, boundary scalars): id = digest of the text as supplied, equal across siblings; distinct = distinct keys / strings / pairs"),
     );
     rep.finish(opts);
 }
